@@ -809,3 +809,175 @@ pub proof fn lemma_options_topn_invisible(sort_by: Seq<String>, skip: u64, take:
 {
     if take is Some { lemma_sorters_topn_invisible(sort_by, skip as nat, take->0 as nat, rows); }
 }
+// ================= C07: stability, stated explicitly =================
+// the rows of one tie class (key equal to k), in the order they have in a list
+pub open spec fn tie_class(g: Rc<dyn Get>, k: JsonValue, l: Seq<Context>) -> Seq<Context> { l.filter(|x: Context| keq(key_of(g, x), k)) }
+pub proof fn lemma_ins_keeps_tie_classes(asc: bool, g: Rc<dyn Get>, l: Seq<Context>, c: Context, k: JsonValue)
+    requires key_order_total(),
+    ensures tie_class(g, k, ins(asc, g, l, c)) == (if keq(key_of(g, c), k) { tie_class(g, k, l).push(c) } else { tie_class(g, k, l) }),
+    decreases l.len(),
+{
+    let p = |x: Context| keq(key_of(g, x), k);
+    let kc = key_of(g, c);
+    if l.len() == 0 {
+        assert(l.filter(p) =~= Seq::<Context>::empty()) by { reveal(Seq::filter); }
+        assert(seq![c].filter(p) =~= (if p(c) { seq![c] } else { Seq::<Context>::empty() })) by {
+            reveal(Seq::filter);
+            assert(seq![c].drop_last() =~= Seq::<Context>::empty());
+        }
+        assert(Seq::<Context>::empty().push(c) =~= seq![c]);
+    } else if stays_before(asc, key_of(g, l.last()), kc) {
+        assert(l.push(c).drop_last() =~= l);
+        assert(l.push(c).filter(p) == (if p(c) { l.filter(p).push(c) } else { l.filter(p) })) by { reveal(Seq::filter); }
+    } else {
+        let dl = l.drop_last();
+        lemma_ins_keeps_tie_classes(asc, g, dl, c, k);
+        let r0 = ins(asc, g, dl, c);
+        assert(r0.push(l.last()).drop_last() =~= r0);
+        assert(r0.push(l.last()).filter(p) == (if p(l.last()) { r0.filter(p).push(l.last()) } else { r0.filter(p) })) by { reveal(Seq::filter); }
+        assert(l.filter(p) == (if p(l.last()) { dl.filter(p).push(l.last()) } else { dl.filter(p) })) by { reveal(Seq::filter); }
+        // the last row goes behind the newcomer, so it is not tied with it: both cannot be in the class of k
+        if p(l.last()) && p(c) {
+            lemma_k_sym(kc, k);
+            lemma_k_eq_trans(key_of(g, l.last()), k, kc);
+            if asc { if klt(kc, key_of(g, l.last())) { lemma_k_lt_excl(kc, key_of(g, l.last())); } } else { if klt(key_of(g, l.last()), kc) { lemma_k_lt_excl(key_of(g, l.last()), kc); } }
+            assert(false);
+        }
+    }
+}
+pub open spec fn keyed(g: Rc<dyn Get>, r: Seq<Context>) -> Seq<Context> { r.filter(|x: Context| g.get_spec(&x) is Some) }
+pub proof fn lemma_filter_front<A>(s: Seq<A>, p: spec_fn(A) -> bool)
+    requires s.len() > 0,
+    ensures s.filter(p) == (if p(s[0]) { seq![s[0]].add(s.subrange(1, s.len() as int).filter(p)) } else { s.subrange(1, s.len() as int).filter(p) }),
+{
+    assert(s =~= seq![s[0]].add(s.subrange(1, s.len() as int)));
+    Seq::<A>::filter_distributes_over_add(seq![s[0]], s.subrange(1, s.len() as int), p);
+    assert(seq![s[0]].filter(p) =~= (if p(s[0]) { seq![s[0]] } else { Seq::<A>::empty() })) by { reveal_with_fuel(Seq::filter, 3); assert(seq![s[0]].drop_last() =~= Seq::<A>::empty()); assert(seq![s[0]].last() == s[0]); assert(Seq::<A>::empty().push(s[0]) =~= seq![s[0]]); }
+    let t = s.subrange(1, s.len() as int);
+    assert((seq![s[0]] + t).filter(p) == seq![s[0]].filter(p) + t.filter(p));
+}
+// STABILITY: in what the sorter emits, the rows of every tie class stand in their arrival order (acc: what was inserted before)
+pub proof fn lemma_isort_stable(asc: bool, g: Rc<dyn Get>, acc: Seq<Context>, r: Seq<Context>, k: JsonValue)
+    requires key_order_total(),
+    ensures tie_class(g, k, isort(asc, g, acc, r)) == tie_class(g, k, acc).add(tie_class(g, k, keyed(g, r))), // @obl THY.C07.ties_keep_arrival_order : C07
+    decreases r.len(),
+{
+    let p = |x: Context| keq(key_of(g, x), k);
+    let hk = |x: Context| g.get_spec(&x) is Some;
+    if r.len() == 0 {
+        assert(r.filter(hk) =~= Seq::<Context>::empty()) by { reveal(Seq::filter); }
+        assert(Seq::<Context>::empty().filter(p) =~= Seq::<Context>::empty()) by { reveal(Seq::filter); }
+        assert(tie_class(g, k, acc).add(Seq::<Context>::empty()) =~= tie_class(g, k, acc));
+    } else {
+        let t = tail(r);
+        lemma_filter_front(r, hk);
+        if g.get_spec(&r[0]) is None { lemma_isort_stable(asc, g, acc, t, k); }
+        else {
+            let acc1 = ins(asc, g, acc, r[0]);
+            lemma_ins_keeps_tie_classes(asc, g, acc, r[0], k);
+            lemma_isort_stable(asc, g, acc1, t, k);
+            let kt = keyed(g, t);
+            assert(keyed(g, r) == seq![r[0]].add(kt));
+            lemma_filter_front(seq![r[0]].add(kt), p);
+            assert(seq![r[0]].add(kt).subrange(1, (kt.len() + 1) as int) =~= kt);
+            if p(r[0]) { assert(tie_class(g, k, acc).push(r[0]).add(kt.filter(p)) =~= tie_class(g, k, acc).add(seq![r[0]].add(kt.filter(p)))); }
+        }
+    }
+}
+// PERMUTATION: what the sorter emits are exactly the rows that have a key, each as often as it arrived
+pub proof fn lemma_ins_multiset(asc: bool, g: Rc<dyn Get>, l: Seq<Context>, c: Context)
+    ensures ins(asc, g, l, c).to_multiset() == l.to_multiset().insert(c),
+    decreases l.len(),
+{
+    broadcast use vstd::seq_lib::group_to_multiset_ensures;
+    if l.len() == 0 { assert(seq![c] =~= l.push(c)); }
+    else if stays_before(asc, key_of(g, l.last()), key_of(g, c)) { }
+    else {
+        let dl = l.drop_last();
+        lemma_ins_multiset(asc, g, dl, c);
+        assert(l =~= dl.push(l.last()));
+        assert(dl.to_multiset().insert(c).insert(l.last()) =~= dl.to_multiset().insert(l.last()).insert(c));
+    }
+}
+pub proof fn lemma_isort_permutation(asc: bool, g: Rc<dyn Get>, acc: Seq<Context>, r: Seq<Context>)
+    ensures isort(asc, g, acc, r).to_multiset() == acc.to_multiset().add(keyed(g, r).to_multiset()), // @obl THY.C07.permutation_of_the_keyed_rows : C07
+    decreases r.len(),
+{
+    broadcast use vstd::seq_lib::group_to_multiset_ensures;
+    let hk = |x: Context| g.get_spec(&x) is Some;
+    if r.len() == 0 {
+        assert(r.filter(hk) =~= Seq::<Context>::empty()) by { reveal(Seq::filter); }
+        assert(Seq::<Context>::empty().to_multiset() =~= vstd::multiset::Multiset::<Context>::empty());
+        assert(acc.to_multiset().add(vstd::multiset::Multiset::<Context>::empty()) =~= acc.to_multiset());
+    } else {
+        let t = tail(r);
+        lemma_filter_front(r, hk);
+        if g.get_spec(&r[0]) is None { lemma_isort_permutation(asc, g, acc, t); }
+        else {
+            lemma_ins_multiset(asc, g, acc, r[0]);
+            lemma_isort_permutation(asc, g, ins(asc, g, acc, r[0]), t);
+            let kt = keyed(g, t);
+            assert(keyed(g, r) == seq![r[0]].add(kt));
+            vstd::seq_lib::lemma_multiset_commutative(seq![r[0]], kt);
+            assert(seq![r[0]] =~= Seq::<Context>::empty().push(r[0]));
+            assert(seq![r[0]].to_multiset() =~= vstd::multiset::Multiset::<Context>::empty().insert(r[0]));
+            assert(acc.to_multiset().insert(r[0]).add(kt.to_multiset()) =~= acc.to_multiset().add(seq![r[0]].to_multiset().add(kt.to_multiset())));
+        }
+    }
+}
+// ================= C07: repeated --sort-by are lexicographic keys =================
+// a subsequence (filter) of a sorted list is sorted
+pub proof fn lemma_filter_sorted(asc: bool, g: Rc<dyn Get>, l: Seq<Context>, p: spec_fn(Context) -> bool)
+    requires sorted_rows(asc, g, l),
+    ensures sorted_rows(asc, g, l.filter(p)),
+        forall|j: int| 0 <= j < l.filter(p).len() ==> exists|i: int| 0 <= i < l.len() && l[i] == #[trigger] l.filter(p)[j],
+    decreases l.len(),
+{
+    reveal(Seq::filter);
+    if l.len() > 0 {
+        let dl = l.drop_last();
+        assert forall|i: int, j: int| 0 <= i < j < dl.len() implies stays_before(asc, key_of(g, #[trigger] dl[i]), key_of(g, #[trigger] dl[j])) by { assert(dl[i] == l[i] && dl[j] == l[j]); }
+        lemma_filter_sorted(asc, g, dl, p);
+        let f0 = dl.filter(p);
+        let f = l.filter(p);
+        assert(f == (if p(l.last()) { f0.push(l.last()) } else { f0 }));
+        assert forall|j: int| 0 <= j < f.len() implies exists|i: int| 0 <= i < l.len() && l[i] == #[trigger] f[j] by {
+            if j < f0.len() { let i = choose|i: int| 0 <= i < dl.len() && dl[i] == f0[j]; assert(l[i] == f[j]); } else { assert(l[l.len() - 1] == f[j]); }
+        }
+        assert forall|i: int, j: int| 0 <= i < j < f.len() implies stays_before(asc, key_of(g, #[trigger] f[i]), key_of(g, #[trigger] f[j])) by {
+            if j < f0.len() { assert(f[i] == f0[i] && f[j] == f0[j]); }
+            else {
+                let i0 = choose|i0: int| 0 <= i0 < dl.len() && dl[i0] == f0[i];
+                assert(f[i] == l[i0] && f[j] == l[l.len() - 1]);
+            }
+        }
+    }
+}
+// two --sort-by options, the first given is the major key: the result is sorted by the major key (lemma_isort_sorted), and inside
+// every tie class of the major key the rows stand in the order of the minor sort, hence sorted by the minor key
+pub proof fn lemma_two_keys_lexicographic(major: Seq<char>, minor: Seq<char>, rows: Seq<Context>, k: JsonValue)
+    requires key_order_total(),
+    ensures ({
+        let res = sort_spec(major, None, sort_spec(minor, None, rows));
+        &&& sorted_rows(sort_asc_of(major), getter_of(major), res)
+        &&& sorted_rows(sort_asc_of(minor), getter_of(minor), tie_class(getter_of(major), k, res))
+    }), // @obl THY.C07.repeated_sort_by_is_lexicographic : C07 C03
+{
+    let g1 = getter_of(major); let a1 = sort_asc_of(major);
+    let g2 = getter_of(minor); let a2 = sort_asc_of(minor);
+    let e = Seq::<Context>::empty();
+    let m = sort_spec(minor, None, rows);
+    lemma_sort_spec_is_isort(minor, rows);
+    lemma_sort_spec_is_isort(major, m);
+    assert(sorted_rows(a2, g2, e));
+    assert(sorted_rows(a1, g1, e));
+    lemma_isort_sorted(a2, g2, e, rows);
+    lemma_isort_sorted(a1, g1, e, m);
+    lemma_isort_stable(a1, g1, e, m, k);
+    let p1 = |x: Context| keq(key_of(g1, x), k);
+    let hk = |x: Context| g1.get_spec(&x) is Some;
+    assert(tie_class(g1, k, e) =~= e) by { reveal(Seq::filter); }
+    assert(e.add(tie_class(g1, k, keyed(g1, m))) =~= tie_class(g1, k, keyed(g1, m)));
+    lemma_filter_sorted(a2, g2, m, hk);
+    lemma_filter_sorted(a2, g2, keyed(g1, m), p1);
+}
